@@ -154,6 +154,61 @@ impl ShortMessageFactory for Tuple {
     }
 }
 
+/// A third-party type that *overrides provided methods in terms of other provided methods*, as
+/// a downstream crate may: `from_bytes` validates through the crate's own raw message and goes on
+/// through `from_other`; `from_other` does its own bookkeeping and goes on through `to_other`.
+/// (A re-entrancy guard turns an endless mutual recursion into a panic.)
+#[derive(Copy, Clone, PartialEq, Eq, Debug)]
+pub struct Overrider(pub (u8, U7, U7));
+
+thread_local! {
+    static OVERRIDER_DEPTH: std::cell::Cell<u32> = std::cell::Cell::new(0);
+}
+struct DepthGuard;
+impl DepthGuard {
+    fn enter() -> DepthGuard {
+        OVERRIDER_DEPTH.with(|d| {
+            if d.get() > 6 {
+                d.set(0);
+                panic!("provided methods of the factory re-enter each other endlessly");
+            }
+            d.set(d.get() + 1);
+        });
+        DepthGuard
+    }
+}
+impl Drop for DepthGuard {
+    fn drop(&mut self) {
+        OVERRIDER_DEPTH.with(|d| d.set(d.get().saturating_sub(1)));
+    }
+}
+
+impl ShortMessage for Overrider {
+    fn status_byte(&self) -> u8 {
+        (self.0).0
+    }
+    fn data_byte_1(&self) -> U7 {
+        (self.0).1
+    }
+    fn data_byte_2(&self) -> U7 {
+        (self.0).2
+    }
+}
+impl ShortMessageFactory for Overrider {
+    unsafe fn from_bytes_unchecked(bytes: (u8, U7, U7)) -> Self {
+        Overrider(bytes)
+    }
+    fn from_bytes(bytes: (u8, U7, U7)) -> Result<Self, FromBytesError> {
+        let _g = DepthGuard::enter();
+        let raw = RawShortMessage::from_bytes(bytes)?;
+        Ok(Self::from_other(&raw))
+    }
+    fn from_other(msg: &impl ShortMessage) -> Self {
+        let _g = DepthGuard::enter();
+        msg.to_other()
+    }
+}
+
 // ---------------------------------------------------------------------------------------------
 // Value helpers.  The harness builds restricted integers through the public checked API.
 // ---------------------------------------------------------------------------------------------
@@ -187,6 +242,7 @@ pub const K_RAW: i64 = 0;
 pub const K_STRUCT: i64 = 1;
 pub const K_GETTERS: i64 = 5;
 pub const K_TUPLE: i64 = 6;
+pub const K_OVER: i64 = 7;
 
 /// Calls `f` with the message (s,a,b) represented by implementor `kind`.
 pub fn with_msg<R>(kind: i64, s: i64, a: i64, b: i64, f: &mut dyn FnMut(&dyn Fed) -> R) -> R {
@@ -197,6 +253,7 @@ pub fn with_msg<R>(kind: i64, s: i64, a: i64, b: i64, f: &mut dyn FnMut(&dyn Fed
         }
         K_GETTERS => f(&Getters(s as u8, u7(a), u7(b))),
         K_TUPLE => f(&Tuple((s as u8, u7(a), u7(b)))),
+        K_OVER => f(&Overrider((s as u8, u7(a), u7(b)))),
         _ => f(&raw(s, a, b)),
     }
 }
